@@ -329,6 +329,13 @@ func TestC16(t *testing.T) {
 		{"zero-deadline-for-settled-ids-only", []*pubsubpb.StreamingPullRequest{{Subscription: w.Sub, StreamAckDeadlineSeconds: 10}, {ModifyDeadlineAckIds: w.StaleAck, ModifyDeadlineSeconds: make([]int32, len(w.StaleAck))}}},
 		{"zero-deadline-for-unknown-ids-only", []*pubsubpb.StreamingPullRequest{{Subscription: w.Sub, StreamAckDeadlineSeconds: 10}, {ModifyDeadlineAckIds: []string{"6f1e0c3a-9d0b-4f5e-8a21-0123456789ab", "6f1e0c3a-9d0b-4f5e-8a21-0123456789ac"}, ModifyDeadlineSeconds: []int32{0, 0}}}},
 		{"ack-of-unknown-ids-only", []*pubsubpb.StreamingPullRequest{{Subscription: w.Sub, StreamAckDeadlineSeconds: 10}, {AckIds: []string{"6f1e0c3a-9d0b-4f5e-8a21-0123456789ab"}}}},
+		// a client library re-sends ids it is not sure about: the same id several times in one request
+		{"repeated-unknown-ack-ids", []*pubsubpb.StreamingPullRequest{{Subscription: w.Sub, StreamAckDeadlineSeconds: 10}, {AckIds: []string{"6f1e0c3a-9d0b-4f5e-8a21-0123456789ab", "6f1e0c3a-9d0b-4f5e-8a21-0123456789ac", "6f1e0c3a-9d0b-4f5e-8a21-0123456789ab", "6f1e0c3a-9d0b-4f5e-8a21-0123456789ac"}}}},
+		{"same-ack-id-three-times", []*pubsubpb.StreamingPullRequest{{Subscription: w.Sub, StreamAckDeadlineSeconds: 10}, {AckIds: []string{"6f1e0c3a-9d0b-4f5e-8a21-0123456789ab", "6f1e0c3a-9d0b-4f5e-8a21-0123456789ab", "6f1e0c3a-9d0b-4f5e-8a21-0123456789ab"}}}},
+		{"repeated-settled-ack-ids", []*pubsubpb.StreamingPullRequest{{Subscription: w.Sub, StreamAckDeadlineSeconds: 10}, {AckIds: append(append(append([]string{}, w.StaleAck...), w.StaleAck...), w.StaleAck...)}}},
+		{"repeated-foreign-ack-ids", []*pubsubpb.StreamingPullRequest{{Subscription: w.Sub, StreamAckDeadlineSeconds: 10}, {AckIds: append(append(append([]string{}, w.ForeignAck...), w.ForeignAck...), "6f1e0c3a-9d0b-4f5e-8a21-0123456789ff")}}},
+		{"repeated-modify-ids", []*pubsubpb.StreamingPullRequest{{Subscription: w.Sub, StreamAckDeadlineSeconds: 10}, {ModifyDeadlineAckIds: []string{"6f1e0c3a-9d0b-4f5e-8a21-0123456789ab", "6f1e0c3a-9d0b-4f5e-8a21-0123456789ac", "6f1e0c3a-9d0b-4f5e-8a21-0123456789ab", "6f1e0c3a-9d0b-4f5e-8a21-0123456789ac"}, ModifyDeadlineSeconds: []int32{0, 10, 0, 10}}}},
+		{"same-id-acked-and-modified", []*pubsubpb.StreamingPullRequest{{Subscription: w.Sub, StreamAckDeadlineSeconds: 10}, {AckIds: []string{"6f1e0c3a-9d0b-4f5e-8a21-0123456789ab", "6f1e0c3a-9d0b-4f5e-8a21-0123456789ab"}, ModifyDeadlineAckIds: []string{"6f1e0c3a-9d0b-4f5e-8a21-0123456789ab", "6f1e0c3a-9d0b-4f5e-8a21-0123456789ab", "6f1e0c3a-9d0b-4f5e-8a21-0123456789ab"}, ModifyDeadlineSeconds: []int32{0, 0, 0}}}},
 		{"garbage-ack-ids", []*pubsubpb.StreamingPullRequest{{Subscription: w.Sub, StreamAckDeadlineSeconds: 10}, {AckIds: []string{"zzz", ""}}}},
 		{"garbage-modify-ids", []*pubsubpb.StreamingPullRequest{{Subscription: w.Sub, StreamAckDeadlineSeconds: 10}, {ModifyDeadlineAckIds: []string{"zzz"}, ModifyDeadlineSeconds: []int32{0}}}},
 		{"negative-deadline", []*pubsubpb.StreamingPullRequest{{Subscription: w.Sub, StreamAckDeadlineSeconds: 10}, {ModifyDeadlineAckIds: w.ForeignAck, ModifyDeadlineSeconds: negs(len(w.ForeignAck))}}},
